@@ -13,3 +13,11 @@ Theorem gen_compile_input_transparent (texts : N -> N) (l : log) (a : N) (ks : l
   MrFaithful l mr full -> HeadFaithful l full -> WindowSpec (p_limit p_gen) l a window ->
   compile_fast gen_tail_count p_gen texts ks mr full window l a = compile p_gen texts l a.
 Proof. exact (compile_input_transparent_stmt gen_tail_count p_gen texts l a ks mr full window gen_tail_count_ok). Qed.
+
+Theorem gen_compile_cached_transparent (texts : N -> N) (l : log) (a : N) (ks : list nat) (me : nat)
+        (mr full comp idx : cfile) (window : option (log * N)) :
+  incr l -> wf_refs l = true ->
+  MrFaithful l mr full -> HeadFaithful l full -> WindowSpec (p_limit p_gen) l a window ->
+  CompFaithfulC l comp full -> IdxFaithful l idx ->
+  compile_cached gen_tail_count p_gen texts ks me mr full comp idx window l a = compile p_gen texts l a.
+Proof. exact (compile_cached_transparent gen_tail_count p_gen texts l a ks me mr full comp idx window gen_tail_count_ok). Qed.
